@@ -318,6 +318,7 @@ func mixFrames(rng *rand.Rand, count int, tagBase uint32) [][]byte {
 	for i := 0; len(out) < count && i < 8*count; i++ {
 		tag := tagBase + uint32(i)
 		var msg util.Message
+		trusted := false // built so that it round-trips by construction: not filtered through the library under test
 		func() {
 			defer func() { recover() }()
 			switch rng.Intn(10) {
@@ -346,6 +347,12 @@ func mixFrames(rng *rand.Rand, count int, tagBase uint32) [][]byte {
 					ic.Data = payload(4 + rng.Intn(120))
 					ip.Data = ic
 					ip.Length = ip.Len()
+					if rng.Intn(3) == 0 {
+						// the switch captured only the head of a larger datagram (miss_send_len): the IPv4 total length
+						// exceeds the bytes that follow
+						ip.Length += uint16(100 + rng.Intn(1300))
+						trusted = true
+					}
 					eth.Ethertype = protocol.IPv4_MSG
 					eth.Data = ip
 				case 1:
@@ -358,6 +365,12 @@ func mixFrames(rng *rand.Rand, count int, tagBase uint32) [][]byte {
 					u.Length = u.Len()
 					ip.Data = u
 					ip.Length = ip.Len()
+					if rng.Intn(3) == 0 {
+						extra := uint16(100 + rng.Intn(1300))
+						ip.Length += extra
+						u.Length += extra
+						trusted = true
+					}
 					eth.Ethertype = protocol.IPv4_MSG
 					eth.Data = ip
 				case 2:
@@ -417,14 +430,16 @@ func mixFrames(rng *rand.Rand, count int, tagBase uint32) [][]byte {
 		if len(b) < 8 || len(b) > 8000 {
 			continue
 		}
-		// keep it only if a private parse re-encodes to the same bytes
-		m2, err := of.Parse(append([]byte(nil), b...))
-		if err != nil || m2 == nil {
-			continue
-		}
-		b2, err := m2.MarshalBinary()
-		if err != nil || !bytes.Equal(b, b2) {
-			continue
+		// keep it only if a private parse re-encodes to the same bytes (frames marked trusted are kept regardless)
+		if !trusted {
+			m2, err := of.Parse(append([]byte(nil), b...))
+			if err != nil || m2 == nil {
+				continue
+			}
+			b2, err := m2.MarshalBinary()
+			if err != nil || !bytes.Equal(b, b2) {
+				continue
+			}
 		}
 		out = append(out, b)
 	}
@@ -844,6 +859,94 @@ func init() {
 		}
 		return fmt.Sprintf("same %d", len(frames))
 	}
+	// concenc <goroutines> <seed> <ms>: every goroutine owns one API-built message (flow-mods with learn / conntrack / NAT
+	// actions, group-mods, packet-outs, vendor messages …) and encodes it over and over for <ms> milliseconds while all
+	// the others do the same with theirs: every encoding must equal the one computed sequentially beforehand
+	runners["concenc"] = func(a []string) string {
+		g, seed, ms := atoi(a[0]), int64(atoi(a[1])), atoi(a[2])
+		ctx := &Ctx{rng: newRand(seed), tier: "quick", stats: map[string]int{}, iso: true}
+		for _, gen := range ofGens {
+			gen(ctx)
+		}
+		var progs []string
+		for _, l := range ctx.queue {
+			if strings.HasPrefix(l, "api ") {
+				p := strings.TrimPrefix(l, "api ")
+				if isTopLevel(p) && (strings.Contains(p, "NXActionLearn") || strings.Contains(p, "NXActionCTNAT") || len(progs)%4 == 0) {
+					progs = append(progs, p)
+				}
+			}
+		}
+		if len(progs) == 0 {
+			return "noprogs"
+		}
+		type own struct {
+			v    reflect.Value
+			m    util.Message
+			want []byte
+		}
+		owns := make([]own, g)
+		for w := 0; w < g; w++ {
+			src := progs[(w*7+int(seed))%len(progs)]
+			if w%4 != 3 {
+				// a bare learn action with three immediate ("from value") specs whose values are this goroutine's own
+				fh := "MatchField(1,3,0,4,0,~,~)"
+				src = fmt.Sprintf("NXActionLearn(NXActionHeader(ActionHeader(65535,10),8992,16),10,20,30,%d,0,1,0,0,0,["+
+					"NXLearnSpec(NXLearnSpecHeader(1,0,0,16,2),~,NXLearnSpecField(%s,0),x%04x),"+
+					"NXLearnSpec(NXLearnSpecHeader(1,1,0,32,2),~,NXLearnSpecField(%s,0),x%08x),"+
+					"NXLearnSpec(NXLearnSpecHeader(1,1,0,48,2),~,NXLearnSpecField(%s,0),x%012x)],x)",
+					w, fh, 0xa000+w, fh, 0xb0000000+w*0x0101, fh, 0xc00000000000+w*0x010101)
+			}
+			v, e := valueOf(src)
+			if e != "" {
+				return "noprog " + e
+			}
+			b, ok := marshalOf(v)
+			if !ok {
+				b = nil
+			}
+			m, _ := v.Interface().(util.Message)
+			owns[w] = own{v, m, append([]byte(nil), b...)}
+		}
+		var bad atomic.Int64
+		var wg sync.WaitGroup
+		start := make(chan struct{})
+		deadline := time.Now().Add(time.Duration(ms) * time.Millisecond)
+		for w := 0; w < g; w++ {
+			wg.Add(1)
+			go func(w int) {
+				defer wg.Done()
+				defer func() {
+					if recover() != nil {
+						bad.Add(1)
+					}
+				}()
+				<-start
+				for time.Now().Before(deadline) {
+					for r := 0; r < 200; r++ {
+						var b []byte
+						var ok bool
+						if owns[w].m != nil {
+							bb, err := owns[w].m.MarshalBinary() // direct call: no reflection between the iterations
+							b, ok = bb, err == nil
+						} else {
+							b, ok = marshalOf(owns[w].v)
+						}
+						if ok && !bytes.Equal(b, owns[w].want) {
+							bad.Add(1)
+							return
+						}
+					}
+				}
+			}(w)
+		}
+		close(start)
+		wg.Wait()
+		if bad.Load() > 0 {
+			return fmt.Sprintf("differ %d goroutines saw an encoding of their own message that differs from the sequential one", bad.Load())
+		}
+		return fmt.Sprintf("same %d", g)
+	}
 	// conclookup <goroutines> <seed>: concurrent registry lookups and generic builder calls with names in spellings the
 	// process has not seen before (random upper/lower case), compared with a sequential reference built from the
 	// canonical names: independent values built concurrently = the values built one after another
@@ -953,6 +1056,14 @@ func init() {
 		}
 		if c.only == nil || c.only["concdhcp"] {
 			line := "concdhcp 16 2000"
+			c.emit(line, runIsolatedOnce(line))
+		}
+		if c.only == nil || c.only["concenc"] {
+			ms := 3000
+			if c.thorough() {
+				ms = 8000
+			}
+			line := fmt.Sprintf("concenc 64 %d %d", c.rng.Intn(100000), ms)
 			c.emit(line, runIsolatedOnce(line))
 		}
 		for _, g := range []int{8, 64} {
@@ -1135,6 +1246,17 @@ func realMessage(s, k int, seed int64) util.Message {
 		po.Xid = tag
 		po.InPort = uint32(s + 1)
 		po.AddAction(of.NewActionOutput(uint32(k + 1)))
+		// actions holding POINTERS to match fields built from the registry, a different value in every message
+		switch k % 3 {
+		case 0:
+			po.AddAction(of.NewNXActionRegLoad2(of.NewCTMarkMatchField(0x11110000+tag, nil)))
+		case 1:
+			po.AddAction(of.NewNXActionRegLoad2(of.NewCTZoneMatchField(uint16(tag))))
+		default:
+			if f, err := of.NewMatchField[uint32, int]("NXM_NX_REG5", uint32(tag)|0x80000000); err == nil {
+				po.AddAction(of.NewNXActionRegLoad2(f))
+			}
+		}
 		n := 40 + int(uint32(k*53+s*17+int(seed))%900)
 		d := make([]byte, n)
 		for i := range d {
